@@ -10,7 +10,7 @@
    5. the inventory obligation: the hand-written classification of Model/HashIterSites.v lists exactly the
       iteration sites / hash-typed declarations / other sources regenerated from /repo/src.
    6. checker soundness. *)
-From Coq Require Import List NArith Bool Lia Permutation.
+From Coq Require Import List Arith NArith Bool Lia Permutation.
 Import ListNotations.
 From Orca Require Import Util Flat Lowering Types CheckTypes TypesProofs HashOrder CheckDeterm.
 From Orca Require Reindex ReidxProofs.
@@ -330,6 +330,40 @@ Proof.
   - intros ([s' st] & E & H). cbn [fst] in E. subst. exists st. exact H.
   - intros (st & H). exists (s, st). split; [reflexivity|exact H].
 Qed.
+
+(* ------------------------------------------------------------------------------------------ *)
+(* 5b. the class predicate of the checker is the hypothesis of [types_map_order_seq], on tokens: outside D11 every
+   requested type occurs at most once in the input's type section *)
+Local Open Scope N_scope.
+Lemma count_tok_pos t : forall l i, nth_error l i = Some t -> 1 <= count_tok t l.
+Proof.
+  induction l as [|x l IH]; intros i H; [destruct i; discriminate|].
+  cbn [count_tok]. destruct i as [|i]; cbn [nth_error] in H.
+  - inversion H; subst. rewrite N.eqb_refl. lia.
+  - specialize (IH i H). destruct (N.eqb x t); lia.
+Qed.
+Lemma count_tok_two t : forall l i j, i <> j -> nth_error l i = Some t -> nth_error l j = Some t -> 2 <= count_tok t l.
+Proof.
+  induction l as [|x l IH]; intros i j Hne Hi Hj; [destruct i; discriminate|].
+  cbn [count_tok]. destruct i as [|i], j as [|j]; cbn [nth_error] in Hi, Hj.
+  - contradiction.
+  - inversion Hi; subst. rewrite N.eqb_refl. pose proof (count_tok_pos t l j Hj). lia.
+  - inversion Hj; subst. rewrite N.eqb_refl. pose proof (count_tok_pos t l i Hi). lia.
+  - assert (Hne' : i <> j) by (intros E; apply Hne; f_equal; exact E).
+    specialize (IH i j Hne' Hi Hj). destruct (N.eqb x t); lia.
+Qed.
+Theorem outside_D11_at_most_once base added :
+  d11_pred base added = false ->
+  forall t, In t added -> forall i j, nth_error base i = Some t -> nth_error base j = Some t -> i = j.
+Proof.
+  unfold d11_pred. intros H t Ht i j Hi Hj.
+  destruct (PeanoNat.Nat.eq_dec i j) as [E|Hne]; [exact E|exfalso].
+  pose proof (count_tok_two t base i j Hne Hi Hj) as H2.
+  assert (Hex : existsb (fun t0 => 2 <=? count_tok t0 base) added = true).
+  { apply existsb_exists. exists t. split; [exact Ht|]. apply N.leb_le. exact H2. }
+  rewrite Hex in H. discriminate.
+Qed.
+Local Close Scope N_scope.
 
 (* ------------------------------------------------------------------------------------------ *)
 (* 6. the checker *)
